@@ -52,18 +52,20 @@ def inScope (ns data : Bytes) (signer : Option Bytes) (appVersion : Nat) : Bool 
 /-- a blob as observed: namespace, data, signer -/
 abbrev BlobObs := Bytes × Bytes × Option Bytes
 
-/-- observed: the shares produced, the reported share count, the blob reconstructed from the shares -/
+/-- observed: the shares produced, the reported share count, the blob reconstructed from the shares
+    (namespace, data, signer) and its share version -/
 inductive SplitObs where
   | err
-  | ok (shares : List Bytes) (sharesLen : Nat) (back : Option BlobObs)
+  | ok (shares : List Bytes) (sharesLen : Nat) (back : Option BlobObs) (backVersion : Option Nat)
 
 /-- **splitting into shares and reconstructing yields the identical blob, and the reported share
     count equals the number of shares produced** (which is `sharesNeeded`, in the stated format) -/
 def specBlob (ns data : Bytes) (signer : Option Bytes) : SplitObs → Bool
   | .err => false
-  | .ok shares sharesLen back =>
+  | .ok shares sharesLen back backVersion =>
     shares == expectedShares ns data signer && shares.length == sharesNeeded data.length signer.isSome &&
-    sharesLen == shares.length && back == some (ns, data, signer)
+    sharesLen == shares.length && back == some (ns, data, signer) &&
+    backVersion == some (if signer.isSome then 1 else 0)
 
 /-- **reconstructing all blobs from their concatenated shares interleaved with reserved-namespace
     shares returns them in order** -/
